@@ -48,7 +48,18 @@ def walk_tree(case):
             seen[rec["name"]] = nth + 1
             if rec["name"] == case["blank_codes"]:
                 blank += [("LED", rec["name"], nth, path) for path, off, leaf, arr in L.leaves(rec) if leaf["r"] == "code" and leaf["k"] in ("ai", "s")]
-    b = product.build_product(level=case["level"], images=case["images"], seed=case["seed"], plan=plan, ctx=case.get("ctx"),
+    if case.get("before"):
+        # HISTORY: another product was opened in this process before (a product of the other level whose image records happen to have the same
+        # length and count -- 544 + 8 p1 = 192 + 2 p2): what one open learns about a layout is not what the next one may assume
+        for lv_, im_ in case["before"]:
+            b0 = product.build_product(level=lv_, images=im_, seed=case["seed"] + 5)
+            u0 = imgrun.put_on_fs(b0, "local", f"c12pre_{case['seed']}")
+            try:
+                t0 = ceos_alos2.open_alos2(u0, backend_options=dict(use_cache=False, records_per_chunk=case.get("rpc", 2)))
+                [t0[f"imagery/{i_['group']}/data"].values for i_ in b0.images]
+            finally:
+                imgrun.drop_from_fs(u0, "local")
+    b = product.build_product(level=case["level"], images=case["images"], seed=case["seed"], plan=plan, ctx=case.get("ctx"), product_id=case.get("product_id"),
                               blank=blank, summary_extra=case.get("summary_extra"), vary_first=case.get("vary_first", False),
                               shape_pairs=("all", "fewer", "none", "more", "all")[(case["seed"] + (case.get("k") or 0)) % 5])
     url = imgrun.put_on_fs(b, case["fs"], f"c12_{case['seed']}_{case.get('k')}")
@@ -158,6 +169,13 @@ def body(chk):
             cases.append(dict(level=level, images=images, seed=chk.seed + si, k=k, fs=("local", "vtrace", "memory", "file")[si % 4]))
     cases.append(dict(level="1.5", images=(("HH", None, 2, 2),), seed=chk.seed + 9, k=1, ctx=dict(designator="LCC-PROJECTION"), fs="local"))
     cases.append(dict(level="1.5", images=(("HH", None, 2, 2),), seed=chk.seed + 9, k=2, ctx=dict(designator="UPS-PROJECTION"), fs="local"))
+    # product ids and leader designators that agree on the projection (U / UTM, L / LCC, P / UPS, M / MER)
+    for j, (pid, desig) in enumerate((("WBDR1.5GLD", "LCC-PROJECTION"), ("WBDR1.5GPD", "UPS-PROJECTION"), ("WBDR1.5GMA", "MER-PROJECTION"), ("FBDR1.5RUA", "UTM-PROJECTION"), ("FBDR3.1GLA", "LCC-PROJECTION"))):
+        cases.append(dict(level=pid[4:7], images=(("HH", None, 2, 2), ("HV", None, 2, 2)), seed=chk.seed + 30 + j, k=(None, j)[j % 2], ctx=dict(designator=desig), product_id=pid, fs="local"))
+    # histories: the other level first, with image records of the same length and count (544 + 8*1 = 192 + 2*180; 544 + 8*3 = 192 + 2*188)
+    cases.append(dict(level="1.5", images=(("HH", None, 6, 180),), seed=chk.seed + 40, k=None, fs="local", rpc=2, before=[("1.1", (("HH", None, 6, 1),))]))
+    cases.append(dict(level="1.1", images=(("HH", None, 6, 1),), seed=chk.seed + 41, k=None, fs="local", rpc=2, before=[("1.5", (("HH", None, 6, 180),))]))
+    cases.append(dict(level="1.5", images=(("HH", None, 4, 188), ("HV", None, 4, 188)), seed=chk.seed + 42, k=None, fs="local", rpc=1024, before=[("1.1", (("HH", None, 4, 3), ("HV", None, 4, 3)))]))
     for j in range(2):  # an image whose per-file fields change along its lines (update flags raised on some lines)
         cases.append(dict(level=("1.5", "1.1")[j], images=(("HH", None, 4, 2), ("HV", None, 3, 1)), seed=chk.seed + 15 + j, k=None, fs="local", vary_first=True))
     # sections the reader has no transformer for (browse image, future additions): whatever it does with them, attributes stay plain
